@@ -72,7 +72,7 @@ impl Sm9EncKey {
             let mlen = data.len() - (65 + 32);
             let k1 = &k[0..mlen];
             let k2 = &k[mlen..];
-            let u = sm3_hmac(k2, c2, 32);
+            let u = sm9_mac(&k2[..32], c2);
             if !u.as_slice().eq(c3) {
                 return Err(Sm9Error::InvalidDigest);
             }
@@ -137,7 +137,7 @@ impl Sm9EncMasterKey {
         let k1 = &k[0..data.len()];
         let k2 = &k[data.len()..];
         let c2 = xor(k1, &data, data.len());
-        let c3 = sm3_hmac(k2, &c2, 32usize);
+        let c3 = sm9_mac(&k2[..32], &c2);
         let mut c: Vec<u8> = vec![];
         c.extend_from_slice(&c1.to_bytes_be());
         c.extend_from_slice(&c3);
@@ -180,6 +180,14 @@ impl Sm9EncMasterKey {
             de: TwistPoint::g_mul(&t),
         })
     }
+}
+
+/// MAC(K2, Z) = Hv(Z || K2) as defined in GM/T 0044.4
+fn sm9_mac(k2: &[u8], z: &[u8]) -> Vec<u8> {
+    let mut buf = vec![];
+    buf.extend_from_slice(z);
+    buf.extend_from_slice(k2);
+    sm3_hash(&buf).to_vec()
 }
 
 const BLOCK_SIZE: usize = 64;
